@@ -432,6 +432,8 @@ def gen_tasks(tier, seed):
         ("MinPathCover", {"edges": [("a", "b"), ("a", "c"), ("b", "d"), ("c", "d"), ("a", "d")], "kwargs": {}}),
         ("MinPathCoverCycles", {"edges": [("s", "a"), ("s", "b"), ("a", "a"), ("b", "b"), ("a", "t"), ("b", "t")], "kwargs": {}}),
         ("MinGenSet", {"numbers": [1, 2, 4, 8], "total": 15}),
+        # two-phase solve (few distinct flow values): an inconclusive second phase must leave the model unsolved and the getters raising
+        ("MinErrorFlow", {"edges": [("s", "a", 5), ("a", "b", 3), ("a", "c", 4), ("b", "t", 3), ("c", "t", 1)], "kwargs": {"weight_type": "int", "few_flow_values_epsilon": 0.5}}),
     ]
     for cls, spec_ in inst:
         for status in ("kTimeLimit", "kInterrupt", "kUnknown", "custom-alarm"):
